@@ -352,6 +352,7 @@ class PredEval:
         self._env = env
         self._aenv = aenv
         self._loc: dict[str, Any] = dict(self.params)
+        self._key_alias: dict[str, Any] = {}
         self._effects: list[str] = []  # calls executed, in order (normalised text)
         self._ver: dict[str, int] = {}  # attribute/subscript text -> number of opaque re-assignments so far
         for k in getattr(self, "_param_subjects", ()):  # a parameter that is later re-bound starts at its enumerated value
@@ -374,10 +375,15 @@ class PredEval:
                     self._block(st.orelse)
             elif isinstance(st, ast.Assign) and len(st.targets) == 1 and isinstance(st.targets[0], ast.Name) and not self._is_effect(st.value):
                 v0 = st.value
+                self._key_alias.pop(st.targets[0].id, None)
                 if isinstance(v0, (ast.Attribute, ast.Subscript)) and self._const(v0) is TOP and self._subject_value(v0) is TOP:
                     self._loc[st.targets[0].id] = ("expr", v0)  # an alias of an opaque expression: tests on it are tests on the expression
                 else:
                     self._loc[st.targets[0].id] = self._val(v0)
+                    if isinstance(v0, (ast.Attribute, ast.Subscript)) and self._const(v0) is TOP:
+                        # a snapshot of an enumerated subject: opaque tests on the local are keyed by the subject's text while
+                        # the subject has not been re-assigned since
+                        self._key_alias[st.targets[0].id] = (v0, self._ver.get(norm(v0), 0))
             elif isinstance(st, ast.Assign) and len(st.targets) == 1 and isinstance(st.targets[0], ast.Tuple) and isinstance(st.value, ast.Tuple) and len(st.targets[0].elts) == len(st.value.elts) and all(isinstance(t, ast.Name) for t in st.targets[0].elts) and not any(self._is_effect(v) for v in st.value.elts):
                 # a, b = x, y : element-wise (all right-hand sides are evaluated before any name is bound)
                 vals = []
@@ -507,6 +513,9 @@ class PredEval:
     def _atom_key(self, e: ast.expr) -> str:
         """Normalised text, with opaque locals replaced by their binding site and re-assigned attributes by their version."""
         subst = {k: v[1] for k, v in self._loc.items() if isinstance(v, tuple) and len(v) == 2 and v[0] == "expr"}
+        for k, (v0, ver0) in self._key_alias.items():
+            if k not in subst and self._ver.get(norm(v0), 0) == ver0:
+                subst[k] = v0
         ck = (id(e), tuple(sorted((k, id(v)) for k, v in subst.items())), tuple(sorted(self._ver.items())), tuple(sorted((k, v[1]) for k, v in self._loc.items() if isinstance(v, tuple) and len(v) == 2 and v[0] == "opaque")))
         if ck in self._key_cache:
             return self._key_cache[ck]
